@@ -88,55 +88,15 @@ CASES = [
 ]
 
 
-def evaluate(unit, port, runtime_value):
-    fns = [f for f in unit.functions.get("get_default_value", []) + [f for q, fl in unit.functions.items() if q.endswith("::get_default_value") for f in fl]
-           if unit.body(f) is not None and "char" in (A.stype(f) or "").split("(")[0]]
-    fns = list({f["id"]: f for f in fns}.values())
-    if len(fns) != 1:
-        raise FD.Unknown("the overload of get_default_value that returns the printed default was not found (%d)" % len(fns), None)
-    fn = fns[0]
-    mem = Mem()
-    vals = {}
-    for p, m in PORTS.items():
-        for k, v in m.items():
-            if v is not None:
-                vals[(p, k)] = mem.literal(v) if False else None
-    # metadata values get their own copies (distinct addresses per port and key)
-    for key in list(vals):
-        a = mem.alloc(len(PORTS[key[0]][key[1]]) + 1)
-        mem.put(a, PORTS[key[0]][key[1]])
-        vals[key] = a
-    arrays = {}
-    depth = {"n": 0}
-
-    def port_by_name(name):
-        base = name.split(":")[0].strip("/")
-        for p in PORTS:
-            if p.split(":")[0] == base:
-                return p
-        return None
-
+def make_libc(mem):
+    """(text, libc) over a Mem: text(v, n) reads a C string operand, libc(name, values, node) models the string functions
+    of the C library on the byte memory (NotImplemented for a name it does not know)"""
     def text(v, n):
         if isinstance(v, str):
             return v
         if isinstance(v, int) and v >= HEAP:
             return mem.cstr(v, n)
         raise FD.Unknown("not a string: %r" % (v,), n)
-
-    def addr_of_array(d):
-        if d["id"] not in arrays:
-            m = re.search(r"\[(\d+)\]", A.qtype(d) or "")
-            size = int(m.group(1)) if m else 8192
-            a = mem.alloc(size)
-            arrays[d["id"]] = (a, size)
-            init = A.kids(d)
-            if init:
-                lit = A.string_literal(A.strip_casts(init[-1]))
-                if lit is None and init[-1].get("kind") == "InitListExpr" and A.kids(init[-1]):
-                    lit = A.string_literal(A.strip_casts(A.kids(init[-1])[0]))
-                if lit is not None:
-                    mem.put(a, lit)
-        return arrays[d["id"]][0]
 
     def libc(nm, v, n):
         nm = nm.replace("__builtin___", "").replace("__builtin_", "").replace("_chk", "")
@@ -229,6 +189,54 @@ def evaluate(unit, port, runtime_value):
         if nm in ("isdigit",):
             return int(48 <= v[0] <= 57)
         return NotImplemented
+
+    return text, libc
+
+
+def evaluate(unit, port, runtime_value):
+    fns = [f for f in unit.functions.get("get_default_value", []) + [f for q, fl in unit.functions.items() if q.endswith("::get_default_value") for f in fl]
+           if unit.body(f) is not None and "char" in (A.stype(f) or "").split("(")[0]]
+    fns = list({f["id"]: f for f in fns}.values())
+    if len(fns) != 1:
+        raise FD.Unknown("the overload of get_default_value that returns the printed default was not found (%d)" % len(fns), None)
+    fn = fns[0]
+    mem = Mem()
+    vals = {}
+    for p, m in PORTS.items():
+        for k, v in m.items():
+            if v is not None:
+                vals[(p, k)] = mem.literal(v) if False else None
+    # metadata values get their own copies (distinct addresses per port and key)
+    for key in list(vals):
+        a = mem.alloc(len(PORTS[key[0]][key[1]]) + 1)
+        mem.put(a, PORTS[key[0]][key[1]])
+        vals[key] = a
+    arrays = {}
+    depth = {"n": 0}
+
+    def port_by_name(name):
+        base = name.split(":")[0].strip("/")
+        for p in PORTS:
+            if p.split(":")[0] == base:
+                return p
+        return None
+
+    text, libc = make_libc(mem)
+
+    def addr_of_array(d):
+        if d["id"] not in arrays:
+            m = re.search(r"\[(\d+)\]", A.qtype(d) or "")
+            size = int(m.group(1)) if m else 8192
+            a = mem.alloc(size)
+            arrays[d["id"]] = (a, size)
+            init = A.kids(d)
+            if init:
+                lit = A.string_literal(A.strip_casts(init[-1]))
+                if lit is None and init[-1].get("kind") == "InitListExpr" and A.kids(init[-1]):
+                    lit = A.string_literal(A.strip_casts(A.kids(init[-1])[0]))
+                if lit is not None:
+                    mem.put(a, lit)
+        return arrays[d["id"]][0]
 
     def hook(n, ev):
         k = n.get("kind")
